@@ -28,6 +28,8 @@ func init() {
 			{ID: "C11.R5", Min: 12, Desc: "address / flag / message roles end to end", Fn: c11Roles},
 			{ID: "C11.R6", Min: 1, Desc: "one outbound mailbox (one ordered stream) per address", Fn: c11OneMailbox},
 			{ID: "C11.R7", Min: 1, Desc: "a healthy connection is never dropped", Fn: c11KeepHealthy},
+			{ID: "C11.R10", Min: 1, Desc: "every send attempt writes the complete frame (C14.R10): a retry runs on a new connection, a frame tail would be parsed as frames", Fn: c14WholeFrame},
+			{ID: "C11.R8", Min: 1, Desc: "handshake lock-step: the accepting side answers only after it has read the dialer's handshake", Fn: c11HandshakeOrder},
 			{ID: "C11.R6", Min: 2, Desc: "envelope and handshake signatures agree", Fn: c11Wire},
 		},
 	})
@@ -44,6 +46,8 @@ func init() {
 			{ID: "C14.R5", Min: 3, Desc: "broken connection dropped", Fn: c14Dropped},
 			{ID: "C14.R6", Min: 1, Desc: "decode failure continues", Fn: c14DecodeContinues},
 			{ID: "C14.R7", Min: 1, Desc: "a re-dialled connection can be registered", Fn: c14ConnName},
+			{ID: "C14.R9", Min: 3, Desc: "the frame reader re-arms or terminates its connection on every path (C11.R3): a connection that stops reading swallows every later frame", Fn: c11Rearm},
+			{ID: "C14.R10", Min: 1, Desc: "every send attempt writes the complete frame", Fn: c14WholeFrame},
 			{ID: "C14.R8", Min: 1, Desc: "retry state is per mailbox, never shared between peers", Fn: c14OwnBackoff},
 		},
 	})
@@ -54,6 +58,8 @@ func init() {
 		Rules: []Rule{
 			{ID: "C15.R7", Min: 5, Desc: "pooled codec objects start clean: an encode failure of one message cannot poison the next remote operation (C12.R9)", Fn: c12Pools},
 			{ID: "C15.R6", Min: 4, Desc: "watcher identity includes the address", Fn: c15WatcherIdentity},
+			{ID: "C15.R9", Min: 4, Desc: "a remote operation whose first attempt fails is retried within the full budget: bounded retry, counter reset on every return (C14.R4)", Fn: c14Retry},
+			{ID: "C15.R8", Min: 1, Desc: "an error carried by a message is reconstructed for every code other than the writer's no-error value", Fn: c15ErrorSentinel},
 			{ID: "C15.R5", Min: 2, Desc: "optional nested payloads are encodable without a codec", Fn: c15OptionalPayload},
 			{ID: "C15.R1", Min: 28, Desc: "wire-representable fields", Fn: c15Representable},
 			{ID: "C15.R2", Min: 10, Desc: "told message types are registered or local-only", Fn: c15Registered},
@@ -982,28 +988,67 @@ func c14Retry(p *Program, r *Report) {
 		}
 		r.Check(bad == "", "the attempt counter is not written inside a retry iteration", badPos, fmt.Sprintf("%d functions write %s.%s; none is reachable from the retried send function %s", len(writers), ownerName(counter), counter.Name(), bad))
 	}
-	// stopped system aborts
-	sg := p.ig(rm.SendLoop)
-	okS := false
-	errE := sg.edgesWhere(func(f cmpFact) bool {
-		if !f.IsNil || f.Op != token.NEQ {
-			return false
+	// ... and every return of the helper leaves the counter at zero: the next message to the same peer gets the full budget again
+	// (a counter left at the limit after an exhausted send makes every later send give up after its first failed attempt)
+	if counter != nil {
+		zeroes := func(in ssa.Instruction) bool {
+			st, ok := in.(*ssa.Store)
+			if !ok {
+				return false
+			}
+			f, _ := fieldAddr(st.Addr)
+			v, isC := constInt(st.Val)
+			return f == counter && isC && v == 0
 		}
-		c, ok := strip(f.X).(*ssa.Call)
-		return ok && c.Call.IsInvoke() && c.Call.Method.Name() == "Err"
-	})
-	for e := range errE {
-		if e.from < 8 || true {
-			for n := range sg.Reach([]int{e.to}, nil, nil) {
-				if ret, isR := sg.Nodes[n].(*ssa.Return); isR {
-					if ab, isC := constBool(retOperand(ret, 0)); isC && ab {
-						okS = true
+		tg := p.ig(rm.Try)
+		deferred := false
+		zero := map[int]bool{}
+		advance := map[int]bool{}
+		for i, in := range tg.Nodes {
+			if d, isD := in.(*ssa.Defer); isD {
+				var target *ssa.Function
+				if mc, isMC := d.Call.Value.(*ssa.MakeClosure); isMC {
+					target, _ = mc.Fn.(*ssa.Function)
+				} else {
+					target = d.Call.StaticCallee()
+				}
+				// registered before the loop: on every path from the entry
+				if target != nil && p.mustDo(target, zeroes, 0) && !anyIn(tg.Reach(tg.entry(), setOf(i), nil), tg.Exits) {
+					deferred = true
+				}
+			}
+			if zeroes(in) {
+				zero[i] = true
+			}
+			if c, isC := in.(*ssa.Call); isC {
+				if y := c.Call.StaticCallee(); y != nil && p.inModule(y) {
+					if p.mustDo(y, zeroes, 0) {
+						zero[i] = true
+					} else if p.mayDo(y, func(in2 ssa.Instruction) bool {
+						st, ok := in2.(*ssa.Store)
+						if !ok {
+							return false
+						}
+						f, _ := fieldAddr(st.Addr)
+						return f == counter
+					}, 0, map[*ssa.Function]bool{}) {
+						advance[i] = true
 					}
 				}
 			}
 		}
+		okZ := deferred
+		if !okZ {
+			okZ = len(advance) > 0
+			for a := range advance {
+				if anyIn(tg.ReachAfter(a, zero, nil), tg.Exits) {
+					okZ = false
+				}
+			}
+		}
+		r.Check(okZ, "the retry helper returns with the attempt counter reset", rm.Try.Pos(), "a deferred reset registered on every path, or a reset on every path from an advance of the counter to a return: an exhausted send does not eat into the retry budget of the next message to that peer")
 	}
-	r.Check(okS, "a stopped system aborts the send", rm.SendLoop.Pos(), "the send closure returns abort=true when the system context is cancelled")
+	c14StopAborts(p, r)
 }
 
 func c14Dropped(p *Program, r *Report) {
@@ -1801,4 +1846,273 @@ func c14OwnBackoff(p *Program, r *Report) {
 	if n == 0 {
 		r.Unresolved("no store into the mailbox's retry-helper field")
 	}
+}
+
+
+// c11HandshakeOrder: the handshake is read with one unframed Read into a fixed buffer; what keeps that Read from swallowing
+// the first frames is the lock-step order — the dialer sends frames only after it has received the acceptor's answer, and the
+// acceptor answers only after it has read the dialer's handshake. In the connection's handshake routine every Send is
+// therefore either on the dialer's branch (an edge asserting the client flag) or dominated by the success edge of a Wait.
+func c11HandshakeOrder(p *Program, r *Report) {
+	send, wait := p.Method("internal/remoting", "Handshake", "Send"), p.Method("internal/remoting", "Handshake", "Wait")
+	if send == nil || wait == nil {
+		r.Unresolved("Handshake.Send / Handshake.Wait")
+		return
+	}
+	n := 0
+	for _, fn := range p.Mod {
+		if fn == send || fn == wait || len(fn.Blocks) == 0 || fn.Parent() != nil {
+			continue
+		}
+		has := map[*ssa.Function]bool{}
+		for _, b := range fn.Blocks {
+			for _, in := range b.Instrs {
+				if c := callOf(in); c != nil && (c.StaticCallee() == send || c.StaticCallee() == wait) {
+					has[c.StaticCallee()] = true
+				}
+			}
+		}
+		if !has[send] || !has[wait] {
+			continue
+		}
+		n++
+		g := p.igx(fn)
+		sends := nodesWhere(g, func(in ssa.Instruction) bool { c := callOf(in); return c != nil && c.StaticCallee() == send })
+		_, waitOK := map[edge]bool{}, map[edge]bool{}
+		for _, ifi := range g.ifs() {
+			for _, outcome := range []bool{true, false} {
+				f, ok := condFact(ifi.Cond, outcome)
+				if !ok || !f.IsNil || f.Op != token.EQL {
+					continue
+				}
+				if c, isC := g.res(sameBlockDef(f.X)).(*ssa.Call); isC && c.Call.StaticCallee() == wait {
+					waitOK[g.branchEdge(ifi, outcome)] = true
+				}
+			}
+		}
+		// the dialer's branch: an edge asserting a boolean field of the receiver (the client flag) to be true
+		dialer := map[edge]bool{}
+		for _, ef := range p.edgeFacts(g) {
+			if b, isB := ef.Field.Type().Underlying().(*types.Basic); isB && b.Kind() == types.Bool && ef.Fact.Bool && ef.Fact.Op == token.NEQ {
+				dialer[ef.E] = true
+			}
+		}
+		ok := len(sends) > 0 && len(waitOK) > 0
+		for s := range sends {
+			if !g.DominatedByEdges(s, mergeEdges(waitOK, dialer)) {
+				ok = false
+			}
+		}
+		r.Check(ok, "handshake order in "+fnName(fn), fn.Pos(), "every Send of the own handshake is on the dialer's branch or dominated by the success edge of Wait: the accepting side never answers before it has consumed the dialer's handshake, so the dialer cannot send frames into the acceptor's unframed handshake read")
+	}
+	if n == 0 {
+		r.Unresolved("no routine performing both Handshake.Send and Handshake.Wait")
+	}
+}
+
+
+// c14WholeFrame: a retry of the send loop always runs on a freshly dialled connection, i.e. at the start of a new byte stream.
+// Whatever is written there must be a complete frame: the value handed to the connection's Write is the frame encoder's result
+// itself — never a re-slice of it (the unwritten tail of an earlier, partly written attempt), on any attempt.
+func c14WholeFrame(p *Program, r *Report) {
+	rm := remOrFail(p, r)
+	if rm == nil {
+		return
+	}
+	root := rm.SendLoop
+	for root.Parent() != nil {
+		root = root.Parent()
+	}
+	n := 0
+	isEncoded := func(v ssa.Value) bool {
+		v = strip(v)
+		if isNilConst(v) {
+			return true
+		}
+		ex, isEx := v.(*ssa.Extract)
+		if !isEx || ex.Index != 0 {
+			return false
+		}
+		c, isC := ex.Tuple.(*ssa.Call)
+		return isC && c.Call.StaticCallee() != nil && p.inModule(c.Call.StaticCallee())
+	}
+	for _, fn := range withAnon(root) {
+		for _, b := range fn.Blocks {
+			for _, in := range b.Instrs {
+				c, ok := in.(*ssa.Call)
+				if !ok || c.Call.StaticCallee() == nil || c.Call.StaticCallee().Name() != "Write" || c.Call.StaticCallee().Signature.Recv() == nil || namedOf(c.Call.StaticCallee().Signature.Recv().Type()) != rm.ConnT {
+					continue
+				}
+				n++
+				arg := c.Call.Args[len(c.Call.Args)-1]
+				good, why := false, ""
+				if isEncoded(arg) {
+					good = true
+				} else if u, isU := arg.(*ssa.UnOp); isU && u.Op == token.MUL {
+					// a variable shared between attempts (captured cell): every assignment of it anywhere in the routine
+					cell := u.X
+					var parentCell ssa.Value
+					if fv, isFV := cell.(*ssa.FreeVar); isFV {
+						parentCell = resolveFreeVarCell(fn, fv)
+					}
+					good = true
+					stores := 0
+					for _, f2 := range withAnon(root) {
+						for _, b2 := range f2.Blocks {
+							for _, in2 := range b2.Instrs {
+								st, isSt := in2.(*ssa.Store)
+								if !isSt {
+									continue
+								}
+								same := st.Addr == cell || (parentCell != nil && st.Addr == parentCell)
+								if fv2, isFV2 := st.Addr.(*ssa.FreeVar); isFV2 && parentCell != nil && resolveFreeVarCell(f2, fv2) == parentCell {
+									same = true
+								}
+								if !same {
+									continue
+								}
+								stores++
+								if !isEncoded(st.Val) {
+									good = false
+									why = " (assigned at " + p.pos(st.Pos()) + " with something else than the encoder's result)"
+								}
+							}
+						}
+					}
+					if stores == 0 {
+						good = false
+					}
+				}
+				r.Check(good, "send attempt writes the encoded frame", c.Pos(), "the argument of the connection's Write is the frame encoder's result on every attempt, never a re-slice or remainder"+why)
+			}
+		}
+	}
+	if n == 0 {
+		r.Unresolved("no Write of the connection in the send routine")
+	}
+}
+
+// resolveFreeVarCell: the cell (Alloc) in the enclosing function that the closure's free variable is bound to.
+func resolveFreeVarCell(fn *ssa.Function, fv *ssa.FreeVar) ssa.Value {
+	if fn.Parent() == nil {
+		return nil
+	}
+	idx := -1
+	for i, f := range fn.FreeVars {
+		if f == fv {
+			idx = i
+		}
+	}
+	if idx < 0 {
+		return nil
+	}
+	for _, b := range fn.Parent().Blocks {
+		for _, in := range b.Instrs {
+			if mc, ok := in.(*ssa.MakeClosure); ok && mc.Fn == ssa.Value(fn) && idx < len(mc.Bindings) {
+				if inner, isFV := mc.Bindings[idx].(*ssa.FreeVar); isFV {
+					return resolveFreeVarCell(fn.Parent(), inner)
+				}
+				return mc.Bindings[idx]
+			}
+		}
+	}
+	return nil
+}
+
+
+// c15ErrorSentinel: a message that carries an error ships it as (code, text); the writer emits the zero code exactly when there
+// is no error, and error codes are signed — the catch-all code for unregistered errors is negative. The reader must therefore
+// rebuild the error for every code different from the no-error value: the condition under which a registered reader assigns
+// an error-typed field of the message is an (in)equality test of the decoded code, never an ordering test (code > 0 turns a
+// failure with the catch-all code into a success on the remote side only).
+func c15ErrorSentinel(p *Program, r *Report) {
+	errT := types.Universe.Lookup("error").Type()
+	n := 0
+	for _, rg := range p.registrations() {
+		if rg.Reader == nil || len(rg.Reader.Blocks) == 0 {
+			continue
+		}
+		g := p.ig(rg.Reader)
+		var stores []int
+		for i, in := range g.Nodes {
+			if st, ok := in.(*ssa.Store); ok {
+				if f, _ := fieldAddr(st.Addr); f != nil && types.Identical(f.Type(), errT) && !isNilConst(strip(st.Val)) {
+					stores = append(stores, i)
+				}
+			}
+		}
+		if len(stores) == 0 {
+			continue
+		}
+		n++
+		bad := ""
+		for _, ifi := range g.ifs() {
+			b, isB := ifi.Cond.(*ssa.BinOp)
+			if !isB {
+				continue
+			}
+			switch b.Op {
+			case token.LSS, token.GTR, token.LEQ, token.GEQ:
+			default:
+				continue
+			}
+			xt, isBasic := b.X.Type().Underlying().(*types.Basic)
+			if !isBasic || xt.Info()&types.IsInteger == 0 || xt.Info()&types.IsUnsigned != 0 {
+				continue
+			}
+			if _, isK := b.Y.(*ssa.Const); !isK {
+				continue
+			}
+			// a decoded value: a load of a local cell filled by the reader
+			if u, isU := b.X.(*ssa.UnOp); !isU || u.Op != token.MUL {
+				continue
+			} else if _, isAl := u.X.(*ssa.Alloc); !isAl {
+				continue
+			}
+			for _, outcome := range []bool{true, false} {
+				e := g.branchEdge(ifi, outcome)
+				for _, sn := range stores {
+					if g.DominatedByEdges(sn, map[edge]bool{e: true}) {
+						bad = p.pos(ifi.Cond.Pos())
+					}
+				}
+			}
+		}
+		r.Check(bad == "", "error field decoded in "+fnName(rg.Reader), rg.Reader.Pos(), "the assignment of the message's error field is not governed by an ordering test of a decoded signed code (codes are signed; the catch-all code for unregistered errors is negative): every code other than the no-error value yields an error "+bad)
+	}
+	if n == 0 {
+		r.Unresolved("no registered reader assigns an error-typed field")
+	}
+}
+
+
+// c14StopAborts: the send closure gives up (abort=true) once the system context is cancelled — a send in its retry loop does
+// not hold up Stop.
+func c14StopAborts(p *Program, r *Report) {
+	rm := remOrFail(p, r)
+	if rm == nil {
+		return
+	}
+	// stopped system aborts
+	sg := p.ig(rm.SendLoop)
+	okS := false
+	errE := sg.edgesWhere(func(f cmpFact) bool {
+		if !f.IsNil || f.Op != token.NEQ {
+			return false
+		}
+		c, ok := strip(f.X).(*ssa.Call)
+		return ok && c.Call.IsInvoke() && c.Call.Method.Name() == "Err"
+	})
+	for e := range errE {
+		if e.from < 8 || true {
+			for n := range sg.Reach([]int{e.to}, nil, nil) {
+				if ret, isR := sg.Nodes[n].(*ssa.Return); isR {
+					if ab, isC := constBool(retOperand(ret, 0)); isC && ab {
+						okS = true
+					}
+				}
+			}
+		}
+	}
+	r.Check(okS, "a stopped system aborts the send", rm.SendLoop.Pos(), "the send closure returns abort=true when the system context is cancelled")
 }
